@@ -40,7 +40,7 @@ LEVEL_TEXT = ('Metamorphic runtime monitoring of the real decoder / encoder pair
 LEVEL_NOTE = 'Trusted: ElementTree serialisation, the structural comparer, is_valid() of the same schema as judge of the encoder output.'
 TECHNIQUE = 'runtime monitoring: metamorphic round-trip oracle + re-validation of strict-encode output over seeded data mutations'
 
-ALL_FAMILIES = dict(D.FAMILIES, poly=D.EXTRA_FAMILIES['poly'], un=D.EXTRA_FAMILIES['un'])   # fx documents are valid or invalid by design
+ALL_FAMILIES = dict(D.FAMILIES, poly=D.EXTRA_FAMILIES['poly'], un=D.EXTRA_FAMILIES['un'], mixq=D.EXTRA_FAMILIES['mixq'])   # fx documents are valid or invalid by design
 
 
 def plan(tier, seed):
@@ -154,7 +154,13 @@ def run_shard(spec, res):
         version = rng.choice(('1.0', '1.1'))
         schema = schemas[fam, version]
         doc = D.GENERATORS[fam](rng)
-        text = D.render_doc(doc, fam)
+        # one document in four re-binds the default namespace wherever the element namespace changes
+        # (not for shop: content admitted only by its lax wildcard does not survive a re-bound default namespace, a
+        # matter of the namespace findings of C17)
+        rebinding = fam != 'shop' and rng.random() < (0.6 if fam == 'mixq' else 0.25)
+        text = D.render_doc(doc, fam, rebinding=rebinding)
+        if rebinding:
+            res.count('documents_with_rebound_default_namespace')
         if not schema.is_valid(text):
             res.inconclusive_case('generated document not valid', fam)
             continue
@@ -229,7 +235,17 @@ def run_shard(spec, res):
             except xmlschema.XMLSchemaException as e:
                 res.violation(f'roundtrip:second-decode-raised:{cname}', case, str(e)[:200])
                 continue
-            if strip_xmlns(data2) != strip_xmlns(data):
+            if rebinding:
+                # key names follow the declarations of the document that was decoded: compare with the data of the
+                # same tree written with the prefix map the re-serialisation uses
+                try:
+                    data_cmp = schema.decode(D.render_doc(doc, fam), **kw)
+                except xmlschema.XMLSchemaException as e:
+                    res.violation(f'roundtrip:decode-raised:{cname}:{type(e).__name__}', case, str(e)[:200])
+                    continue
+            else:
+                data_cmp = data
+            if strip_xmlns(data2) != strip_xmlns(data_cmp):
                 res.violation(f'roundtrip:data-differs-after-second-decode:{cname}', case,
                               f'{fam} {cname} {case["options"]}: {str(strip_xmlns(data2))[:160]} vs {str(strip_xmlns(data))[:160]}')
                 continue
